@@ -156,6 +156,17 @@ def check_object(ctx, obj, case, label, brk, pts, H_ref, S_ref, T_ref, table):
         if not close(sv, v, 1e-12 * max(1.0, abs(sv))):
             f('scalar-vs-array-CpoR', 'CpoR(%r) scalar %r, array %r' % (T, sv, v))
             break
+    # an integer-typed array of temperatures is the same request as the float one (300 K is 300.0 K)
+    ints = sorted({int(T) for T in pts if float(T).is_integer()} | {int(math.ceil(pts[0])), int(math.floor(pts[-1]))})
+    ints = [t for t in ints if pts[0] <= t <= pts[-1]]
+    if ints:
+        got = obj.get_CpoR(np.array(ints, dtype=int))
+        ctx.event('integer-temperature-array')
+        for T, v in zip(ints, np.atleast_1d(got)):
+            sv = obj.get_CpoR(float(T))
+            if not close(sv, v, 1e-12 * max(1.0, abs(sv))):
+                f('scalar-vs-array-CpoR:integer-array', 'CpoR(%r) scalar %r, element of CpoR(integer array %r) = %r' % (float(T), sv, ints, v))
+                break
     allbrk = list(brk)
     try:
         sp = obj._correlation.spline if hasattr(obj, '_correlation') else obj.spline
